@@ -217,14 +217,20 @@ structure GenEnv where
   cmaStop : Bool
 deriving Repr
 
+/-- was some request of this generation refused by an exhausted cutoff (its genome is not observable) -/
+def refusedIn (mx : Bool) (evald : List Ind) : Bool :=
+  evald.any fun e => e.genome.isEmpty && e.fit == Fit.sentinel mx
+
+/-- an individual of a generation is admissible if it belongs to the generation it was bred
+from, or was evaluated while this generation was made, or carries the sentinel of a refused request -/
+def memberOk (mx : Bool) (parents evald : List Ind) (i : Ind) : Bool :=
+  parents.contains i || evald.contains i || (refusedIn mx evald && i.fit == Fit.sentinel mx)
+
 /-- what a generation must satisfy relative to the generation it was bred from -/
 def genOk (mx : Bool) (lc : LevelCfg) (parents evald pop : List Ind) (expectedSize : Nat) : Except String Unit :=
   if pop.length != expectedSize then .error s!"generation has {pop.length} individuals, expected {expectedSize}" else
   let fresh := lc.engine == .cma || lc.engine == .lhs || lc.engine == .sobol
-  -- a request refused by an exhausted cutoff stores the sentinel; its genome is not observable
-  let refusedHere := evald.any fun e => e.genome.isEmpty && e.fit == Fit.sentinel mx
-  if !(pop.all fun i => (!fresh && parents.contains i) || evald.contains i ||
-        (refusedHere && i.fit == Fit.sentinel mx)) then
+  if !(pop.all fun i => memberOk mx (if fresh then [] else parents) evald i) then
     .error "generation contains an individual that is neither in the preceding generation nor evaluated during this generation"
   else if lc.elitist && !(parents.all fun p => pop.any fun o => !(better mx p o)) then
     .error "elitist engine lost ground: some parent is strictly better than every member of the new generation"
@@ -250,22 +256,23 @@ def nextChildId (t : T) (parent : Deme) : Id :=
   parent.id ++ [(t.levels.getD (parent.level + 1) []).length]
 
 /-- what the initial population of a new deme must look like -/
-def initPopOk (mx : Bool) (lc : LevelCfg) (seed : Option Ind) (env : NewEnv) (ev : List Ind) : Except String Unit :=
-  match lc.engine, seed with
-  | .localOpt, some s =>
-    if env.pop != [s] || !env.reqs.isEmpty then .error "a local deme must start from its seed without evaluating" else .ok ()
-  | .localOpt, none => .error "local deme without seed"
-  | .cma, none => .error "CMA deme without seed"
-  | .cma, some _ | .lhs, _ | .sobol, _ =>
-    if !(env.pop.all ev.contains) then .error "initial population contains an unevaluated individual" else .ok ()
-  | _, none =>
-    if env.pop.length != lc.popSize || !(env.pop.all ev.contains) then
-      .error "root population: wrong size or unevaluated individual" else .ok ()
-  | _, some s =>
-    if env.pop.length != lc.popSize then .error s!"initial population has {env.pop.length} members, configured {lc.popSize}"
-    else if !(env.pop.all ev.contains) then .error "initial population contains an unevaluated individual"
-    else if !(env.pop.any fun i => i.genome == s.genome) then .error "initial population does not contain its seed"
-    else .ok ()
+def initPopOk (_mx : Bool) (lc : LevelCfg) (seed : Option Ind) (env : NewEnv) (ev : List Ind) : Except String Unit :=
+  if lc.engine == .localOpt then
+    match seed with
+    | some s =>
+      if env.pop != [s] || !env.reqs.isEmpty then .error "a local deme must start from its seed without evaluating" else .ok ()
+    | none => .error "local deme without seed"
+  else if !(env.pop.all ev.contains) then .error "initial population contains an unevaluated individual"
+  else if lc.engine == .cma then
+    (if seed.isNone then .error "CMA deme without seed" else .ok ())
+  else if lc.engine == .lhs || lc.engine == .sobol then .ok ()
+  else if env.pop.length != lc.popSize then
+    .error s!"initial population has {env.pop.length} members, configured {lc.popSize} (wrong size)"
+  else match seed with
+    | none => .ok ()
+    | some s =>
+      if !(env.pop.any fun i => i.genome == s.genome) then .error "initial population does not contain its seed"
+      else .ok ()
 
 /-- `init_from_config` + registration (`add_child`, `levels[target].append`).  The new
 deme owns its counting wrapper: its counter starts at the number of requests it issued
@@ -384,7 +391,7 @@ def finishGen (t1 : T) (id : Id) (lc : LevelCfg) (q : List Id) (done : Nat) (pen
     (g : GenEnv) (lscEnv : Option Bool) : Except String T :=
   if lc.engine == .lhs || lc.engine == .sobol then
     -- `run()` appends its population as a metaepoch of its own, then `gsc or lsc`
-    let t2 := appendHist t1 id [gen] true
+    let t2 := appendHist t1 id (pending ++ [gen]) true
     match gscEval t2 g.gscEnv t2.cfg.gsc with
     | none => .error "no GSC verdict"
     | some gv =>
